@@ -51,17 +51,16 @@ def fromSliceO (cx : Codecs) (debug : Bool) : Nat → Nat → Bytes → Nat → 
     | .error .eof => .ok ⟨acc, owned, next⟩
     | .error e => .err e
     | .ok ((off, pm), rest) =>
-      if debug ∧ pm.trailing ≠ 0 then .panic "fetch.rs:481 debug_assert" else
       if (toU 1 pm.attr) % 8 = 0 then
         fromSliceO cx debug depth fuel rest raw next req validate
           (if off ≥ req then acc ++ [(⟨off, pm.key, pm.value⟩, raw)] else acc) owned
       else
-        match innerOf cx ((toU 1 pm.attr) % 8) pm.value with
-        | .error r => r
-        | .ok v =>
-          match depth with
-          | 0 => .panic "stack"
-          | d+1 =>
+        match depth with
+        | 0 => .err .unsupportedCompression
+        | d+1 =>
+          match innerOf cx ((toU 1 pm.attr) % 8) pm.value with
+          | .error r => r
+          | .ok v =>
             -- `from_vec(v, ..)`: the decompressed vector gets identity `next`; the inner set owns it (Cow::Owned) …
             match fromSliceO cx debug d (v.length + 1) v next (next + 1) req validate [] [] with
             | .ok inner =>
